@@ -1055,3 +1055,5 @@ def get_mw_infos(_application):
         ret.append(dict(zip(_MW_FIELDS, values)))
     return ret
 '''))
+B('k18b_format_method_shows_key', ['C18'], 'R18.b', (CK, "    def __repr__(self):\n        cn = self.__class__.__name__\n        return ('%s(arg_name=%r, cookie_name=%r)'",
+                                                     "    def __format__(self, spec):\n        return '%s(%s)' % (self.__class__.__name__, self.secret_key)\n\n    def __repr__(self):\n        cn = self.__class__.__name__\n        return ('%s(arg_name=%r, cookie_name=%r)'"))
